@@ -25,7 +25,7 @@ ASSUMPTIONS = [
     'named as a dependency depends on "everything", which the statement does not cover)',
     'invocation order between different methods is not asserted',
 ]
-REQUIRED = {'ops': 3000, 'invocations': 3000, 'overrides': 200, 'method_on_method': 200, 'function_form_ops': 300, 'methods_without_dependencies': 60, 'plain_mixin_first': 30}
+REQUIRED = {'ops': 3000, 'invocations': 3000, 'overrides': 200, 'method_on_method': 200, 'function_form_ops': 300, 'methods_without_dependencies': 60, 'plain_mixin_first': 30, 'objects_mutations': 200}
 
 _st = {}
 PNAMES = ['p0', 'p1', 'p2', 'p3']
@@ -80,6 +80,8 @@ def run_case(idx, rng, P, rep):
         if ci == 0:
             for pn in PNAMES:
                 ns[pn] = param.Number(default=float(PNAMES.index(pn)), bounds=(-1000, 1000))
+            # (only its list of objects is ever changed, in place)
+            ns['sel'] = param.Selector(objects={'one': 1, 'two': 2})
         if shape == 'mixin' and ci == 1:
             ns['q0'] = param.Number(default=7.0, bounds=(-1000, 1000))
         avail_params = PNAMES if not (shape == 'mixin' and ci == 1) else ['q0']
@@ -100,7 +102,9 @@ def run_case(idx, rng, P, rep):
             # (an empty dependency set is legitimate: the on_init-only idiom, or a bare @depends() another method names)
             for _ in range(rng.randint(1, 3) if rng.random() < 0.88 else 0):
                 c = rng.random()
-                if c < 0.55 or not avail_methods:
+                if c < 0.07 and avail_params is PNAMES:
+                    deps.append('sel:objects')
+                elif c < 0.55 or not avail_methods:
                     deps.append(rng.choice(avail_params))
                 elif c < 0.75:
                     deps.append(rng.choice(avail_params) + ':' + rng.choice(['bounds', 'step']))
@@ -236,7 +240,7 @@ def run_case(idx, rng, P, rep):
     kinds = []
     for step in range(rng.randint(3, P['proglen'])):
         changes = {}        # item -> EQ verdict
-        kind = rng.choice(['set', 'set', 'same', 'update', 'batch', 'slot', 'batch_value_and_slot'])
+        kind = rng.choice(['set', 'set', 'same', 'update', 'batch', 'slot', 'batch_value_and_slot', 'objects'])
         o.__dict__['_log'] = []
         pn_all = list(model)
 
@@ -279,6 +283,22 @@ def run_case(idx, rng, P, rep):
                     changes[(pn, 'value')] = EQ(start[pn], vs[0])
                 else:
                     changes[(pn, 'value')] = DIFFERENT if EQ(start[pn], vs[-1]) == DIFFERENT and all(x == DIFFERENT for x in verdicts) else UNSPEC
+        elif kind == 'objects':
+            # one in-place change of a Selector's objects (possibly several items at once) is one change of 'sel:objects'
+            form = rng.choice(['update-kw', 'update-map', 'update-both', 'setitem'])
+            trace.append(('objects', form))
+            changes[('sel', 'objects')] = DIFFERENT
+            k1, k2 = f'k{step}a', f'k{step}b'
+            objs = o.param.sel.objects
+            if form == 'update-kw':
+                objs.update({}, **{k1: step + 100, k2: step + 200})
+            elif form == 'update-map':
+                objs.update({k1: step + 100, k2: step + 200})
+            elif form == 'update-both':
+                objs.update({k1: step + 100}, **{k2: step + 200})
+            else:
+                objs[k1] = step + 100
+            rep.count('objects_mutations')
         elif kind == 'slot':
             pn = rng.choice(PNAMES)
             slot = rng.choice(['bounds', 'step'])
